@@ -48,7 +48,7 @@ def arming_lines(arming):
 # ---------------------------------------------------------------------------
 # observations
 
-_FROZEN = re.compile(r'^(frozenset|set)\(\{(.*)\}\)$', re.S)
+_FROZEN = re.compile(r'\b(frozenset|set)\(\{([^{}]*)\}\)')
 
 
 def _stable(x):
@@ -56,10 +56,8 @@ def _stable(x):
         return tuple(_stable(y) for y in x)
     if isinstance(x, list):
         return [_stable(y) for y in x]
-    if isinstance(x, str):
-        m = _FROZEN.match(x)
-        if m:
-            return m.group(1) + '({' + ', '.join(sorted(m.group(2).split(', '))) + '})'
+    if isinstance(x, str) and 'set({' in x:
+        return _FROZEN.sub(lambda m: m.group(1) + '({' + ', '.join(sorted(m.group(2).split(', '))) + '})', x)
     return x
 
 
